@@ -32,7 +32,7 @@ ASSUMPTIONS = [
     "a document whose bytes do not decode under the encoding the ladder selects is expected to be an unloaded import (rule kept, empty sheet)",
     "imported sheets are compared by marker and reported encoding; the restart projection compares the edited sheet's own rules",
 ]
-PROBES = ["rung_override", "rung_http", "rung_content", "rung_parent", "rung_default", "depth2", "depth3", "override_inherited_two_levels", "import_added_after_parse", "escape_in_identifier", "escape_in_string", "escape_in_url", "escape_in_comment", "undecodable_import_unloaded", "fetch_fault"]
+PROBES = ["rung_override", "rung_http", "rung_content", "rung_parent", "rung_default", "depth2", "depth3", "override_inherited_two_levels", "import_added_after_parse", "escape_in_identifier", "escape_in_string", "escape_in_url", "escape_in_comment", "escape_in_atkeyword", "undecodable_import_unloaded", "fetch_fault"]
 
 SINGLE = ["utf-8", "iso-8859-1", "iso-8859-15", "koi8-r"]
 MARK = "ä"  # utf-8 bytes C3 A4
@@ -382,7 +382,7 @@ class World:
         return (self.cfg["entry"], bool(self.cfg["override"]), None if s is None else (norm(s.encoding), len(s.cssRules)))
 
 
-CHARS = ["ä", "é", "€", "ж", "中", "\U0001f600", "ÿ", "Δ", "\ud800", "\\dfff ", "\U0010ffff"]  # incl. lone surrogates: no encoding represents them
+CHARS = ["ä", "é", "€", "ж", "中", "\U0001f600", "ÿ", "Δ", "\ud800", "\\dfff ", "\U0010ffff", "\u00a5", "\u00a2", "\u203e", "\\\u00e4", "\\\u4e2d"]  # incl. lone surrogates: no encoding represents them
 
 
 def gen_op(r, w, i):
@@ -393,15 +393,16 @@ def gen_op(r, w, i):
     if k == "add_import":
         return {"op": k, "name": r.choice([n for n in cfg["docs"] if n != "root.css"] or ["a.css"])}
     if k == "set_encoding":
-        return {"op": k, "value": r.choice(["ascii", "ascii", "iso-8859-1", "koi8-r", "utf-8", "utf-16", None, "iso-8859-15"])}
+        return {"op": k, "value": r.choice(["ascii", "ascii", "iso-8859-1", "koi8-r", "utf-8", "utf-16", None, "iso-8859-15", "shift_jis", "euc_jp", "cp932", "gbk", "cp950", "cp500", "utf-7"])}
     if k == "add_content":
         c = r.choice(CHARS)
-        where = r.choice(["identifier", "string", "url", "comment", "identifier", "string"])
+        where = r.choice(["identifier", "string", "url", "comment", "identifier", "string", "atkeyword"])
         text = {
             "identifier": f".k{c}x, #i{c} {{ left: 0 }}",
             "string": f'q {{ content: "a{c}b"; font-family: "{c}", x{c} }}',
             "url": f"u {{ background: url(i{c}.png) }}",
             "comment": f"/* c{c} */",
+            "atkeyword": f"@f{c}t x;" if c.isalpha() else f"@ft {c};",
         }[where]
         return {"op": k, "where": where, "text": text}
     return {"op": "restart"}
